@@ -86,6 +86,7 @@ type Observation struct {
 	Written   []string          `json:"written"` // generated files this process created or modified (observed on the directory)
 	Intended  map[string]string `json:"-"`       // sim: digest of the bytes passed to os.WriteFile, per file, when that seam was used
 	Files     map[string]string `json:"-"`       // bytes of the written files
+	Disk      map[string]string `json:"-"`       // bytes of every generated file present in the directory afterwards
 	FileSha   map[string]string `json:"file_sha"`
 	Report    string            `json:"-"`
 	ReportSha string            `json:"report_sha"`
@@ -126,6 +127,10 @@ func classify(r *GenResult) string {
 func Observe(r *GenResult, sim bool) *Observation {
 	o := &Observation{ExitClass: classify(r), Exit: r.Exit, Files: map[string]string{}, FileSha: map[string]string{},
 		Report: string(r.Stdout), ReportSha: shaS(r.Stdout), Stderr: string(r.Stderr)}
+	o.Disk = map[string]string{}
+	for f, b := range r.Files {
+		o.Disk[f] = string(b)
+	}
 	// Files written by this process, as observed on the directory.
 	for _, f := range GenFiles {
 		if r.Touched[f] {
